@@ -1,4 +1,5 @@
 import Pcore.Model.SerArms
+import Pcore.Model.SpanCodec
 /-
   C10 model — serialization/serializer.go, types/basiccollector.go, serialization/deserializer.go
   (the code as it is after the `fix:` commits "serializer recorded a position for a value whose emitter produced
@@ -30,7 +31,10 @@ import Pcore.Model.SerArms
   emits) is the explicit error `cyclic`.  `ds.converted[x] = h` happens in Go before the children are converted and
   here after; the difference is only visible on cyclic data.
 
-  Parameters (modelled, not verified — DESIGN.md §5): the leaf codecs.  A leaf carries the two strings the real codec
+  Leaf codecs inside the model: Binary (base64, `b64`/`unb64`, proved to invert), Timespan (the default format,
+  Model/SpanCodec.lean, `parseSpan (printSpan ns) = some ns` proved), Regexp (SerializationString is the pattern source
+  and decoding compiles that source: the identity on the text — only "the source compiles" is outside the model).
+  Parameters (modelled, not verified — DESIGN.md §5): the other leaf codecs.  A leaf carries the two strings the real codec
   prints (`enc` = SerializationString(), `disp` = String()); decoding a `__pvalue` string for a known type name gives
   the leaf back.  Base64 is concrete (`b64` / `unb64`).  `String()` of floats and containers (needed only for
   non-string hash keys with rich_data=false and a consumer without complex keys) is not modelled: `V.dispOk`.
@@ -642,10 +646,21 @@ def decodeLeaf (tn s : String) (nid : Nat) : Except DErr V :=
     match unb64 s with
     | some bs => .ok (.bin 0 bs)
     | none => .error .badValue
+  else if tn = "Timespan" then
+    -- the real codec (Model/SpanCodec.lean): ParseTimespan with the default format; the value is its nanoseconds
+    match parseSpan s with
+    | some ns => .ok (.leaf nid .ts (printSpan ns) "")
+    | none => .error .badValue
   else
     match kindOfTypeName tn with
     | some k => .ok (.leaf nid k s "")
     | none => .error .unresolved
+
+/-- is the payload of a leaf what its codec prints?  Timespan: the default format of some number of nanoseconds
+    (real codec); Regexp: any source text (the codec is the identity on it); the other kinds are abstract -/
+def canonLeaf : Kind → String → Bool
+  | .ts, enc => canonSpan enc
+  | _, _ => true
 
 mutual
 /-- `dsContext.convert` -/
